@@ -2215,10 +2215,16 @@ class DateAdapter(se.Adapter):
         self._multiplier = multiplier
 
     def decode(self, val: Any, ctx: Optional[se.ParseContext], pod: bool = False) -> Any:
-        return datetime.datetime.fromtimestamp(val / self._multiplier).isoformat()
+        # Integer math only, going through a float timestamp loses microseconds
+        secs, frac = divmod(val, self._multiplier)
+        date = datetime.datetime.fromtimestamp(secs)
+        date += datetime.timedelta(microseconds=frac * 1_000_000 // self._multiplier)
+        return date.isoformat()
 
     def encode(self, val: Any, ctx: Optional[se.ParseContext]) -> Any:
-        return int(datetime.datetime.fromisoformat(val).timestamp() * self._multiplier)
+        date = datetime.datetime.fromisoformat(val)
+        secs = int(date.replace(microsecond=0).timestamp())
+        return secs * self._multiplier + date.microsecond * self._multiplier // 1_000_000
 
 
 @se.enum_field_serializer("MeanCollisionAlert", "MeanCollision", "Type")
